@@ -7,9 +7,14 @@
    every environment event sequence (the poller's contract: the callback runs at most once).
    PART C: start_polling/stop_polling pairs.
    NOT covered (property is claimed partial): MPI's own progress, the visibility of received data,
-   liveness of the poller (that somebody keeps polling), poll_singlethreaded. *)
+   liveness of the poller (that somebody keeps polling).
+   PART D (poll_singlethreaded, Model/Mpi.v [sstep]): every schedule [list (nat * soracle)] whose steps are all
+   taken by ONE OS thread ([one_thread t0 sched]: the dedicated pool has one worker and non-inline requests
+   are transferred to it), every inline-registration predicate [inl] (which callbacks call
+   add_request_callback from inside their body); the no-reallocation theorem needs [no_inline_add inl],
+   which holds for the callbacks transform_mpi registers (notes/design/C20.md). *)
 From Coq Require Import List Arith NArith Bool.
-From Pika Require Import Base.Conc Gen.GenMpi Model.Mpi Proofs.MpiProofs.
+From Pika Require Import Base.Conc Gen.GenMpi Model.Mpi Proofs.MpiProofs Proofs.MpiSingleProofs.
 Import ListNotations.
 
 (* each registered request's callback is invoked at most once, it is the callback that was registered
@@ -230,3 +235,94 @@ Proof. vm_compute. split; reflexivity. Qed.
 Example C20_compact_inplace_needs_length :
   compact_inplace [Some 1; Some 2] [(1,1)] <> compact [Some 1; Some 2] [(1,1)].
 Proof. vm_compute. discriminate. Qed.
+
+(* ------------------------------------------------------------------ PART D: poll_singlethreaded *)
+(* each registered request's callback is invoked at most once, it is the callback registered with that
+   request (the function object found IN PLACE in callbacks_[idx] at the moment of the call), and only
+   registered requests are called back — for one polling thread, whatever the callbacks register inline *)
+Theorem C20_single_callback_once : forall inl t0 sched, one_thread t0 sched ->
+  let lg := mlog (fst (s_run inl sched)) in
+  NoDup (calls lg) /\ forall c r e, In (EvCall c r e) lg -> c = r /\ In (EvReg r) lg.
+Proof. exact single_callback_once. Qed.
+Print Assumptions C20_single_callback_once.
+
+(* ... only after MPI_Testany reported the request, which happens only after MPI completed it; the status
+   passed to the callback is MPI's; no earlier call *)
+Theorem C20_single_after_complete : forall inl t0 sched l1 l2 c r e, one_thread t0 sched ->
+  mlog (fst (s_run inl sched)) = l1 ++ EvCall c r e :: l2 ->
+  In (EvTest r) l2 /\ In (EvDone r e) l2 /\ ~ In r (calls l2).
+Proof. exact single_after_complete. Qed.
+Print Assumptions C20_single_after_complete.
+
+Theorem C20_single_test_after_done : forall inl t0 sched l1 l2 r, one_thread t0 sched ->
+  mlog (fst (s_run inl sched)) = l1 ++ EvTest r :: l2 -> exists e, In (EvDone r e) l2.
+Proof. exact single_test_after_done. Qed.
+Print Assumptions C20_single_test_after_done.
+
+(* all_in_flight_ = (queued: always 0 here) + non-null slots of requests_ + the requests in the hands of the
+   thread (counted but not yet pushed / reported by Testany but not yet decremented), in EVERY reachable state *)
+Theorem C20_single_in_flight_exact : forall inl t0 sched, one_thread t0 sched ->
+  let g := fst (s_run inl sched) in
+  in_flight g = cnt transient_stage (stage g) (next_req g) + length (rq g) + nonnull (vreq g).
+Proof. exact single_in_flight_exact. Qed.
+Print Assumptions C20_single_in_flight_exact.
+
+(* the queue-drain loop of poll_singlethreaded is dead code in this mode; ready_requests_ and the mutex are unused *)
+Theorem C20_single_queue_unused : forall inl t0 sched, one_thread t0 sched ->
+  rq (fst (s_run inl sched)) = [] /\ ready (fst (s_run inl sched)) = [] /\ lock (fst (s_run inl sched)) = None.
+Proof. exact single_queue_unused. Qed.
+Print Assumptions C20_single_queue_unused.
+
+(* PIKA_INVOKE(std::move(callbacks_[idx].cb_), status) is in bounds and the element it invokes is the
+   callback registered with the request Testany reported (the out-of-bounds branch of [sstep] is dead) *)
+Theorem C20_single_call_in_place : forall inl t0 sched idx r e, one_thread t0 sched ->
+  snd (s_run inl sched) t0 = SCall idx r e ->
+  nth_error (vcb (fst (s_run inl sched))) idx = Some (r, r).
+Proof. exact single_call_in_place. Qed.
+Print Assumptions C20_single_call_in_place.
+
+(* The observation of notes/design/C20.md settled: if no callback registers a request inline and one thread
+   runs the poller, then every step taken while the callback stored in callbacks_[idx] executes in place
+   leaves requests_ and callbacks_ untouched (no push_back/reallocation, no compaction/resize, no slot
+   write), and the thread stays inside the callback until it returns. *)
+Theorem C20_single_callback_no_realloc : forall inl t0 sched o,
+  no_inline_add inl -> one_thread t0 sched ->
+  let c := s_run inl sched in
+  in_callback (snd c t0) = true ->
+  let c' := step (sstep inl) c (t0, o) in
+  vreq (fst c') = vreq (fst c) /\ vcb (fst c') = vcb (fst c) /\
+  (in_callback (snd c' t0) = true \/ exists r, snd c' t0 = SFin r).
+Proof. exact single_callback_no_realloc. Qed.
+Print Assumptions C20_single_callback_no_realloc.
+
+(* both hypotheses are needed: (1) a callback that registers inline pushes into callbacks_ while
+   callbacks_[0].cb_ executes; (2) with a second polling thread, compact_vectors of thread 1 overwrites and
+   cuts off slot 0 while thread 0 executes the callback stored there *)
+Example C20_single_inline_add_reallocates :
+  let inl := fun _ : req => true in
+  let c := s_run inl w_inline_sched in
+  one_thread 0 w_inline_sched /\
+  snd c 0 = SSPush 2 (Some (0, 0)) /\ in_callback (snd c 0) = true /\
+  vcb (fst c) = [(0, 0); (1, 1)] /\
+  vcb (fst (step (sstep inl) c (0, SoNoTest))) = [(0, 0); (1, 1); (2, 2)].
+Proof. exact single_inline_add_reallocates. Qed.
+
+Example C20_single_second_thread_compacts :
+  let inl := fun _ : req => false in
+  let c := s_run inl w_two_sched in
+  no_inline_add inl /\
+  snd c 0 = SInCb 0 0 /\ snd c 1 = SCompact /\
+  vcb (fst c) = [(0, 0); (1, 1)] /\
+  vcb (fst (step (sstep inl) c (1, SoNoTest))) = [(1, 1)] /\
+  snd (step (sstep inl) c (1, SoNoTest)) 0 = SInCb 0 0.
+Proof. exact single_second_thread_compacts. Qed.
+
+(* non-vacuity: one thread registers two requests, MPI completes r1 (error status) then r0; Testany reports
+   them in that order; both callbacks run once, in place, after their tests; counters and vectors drain *)
+Example C20_single_example :
+  let g := fst (s_run (fun _ => false) w_single_run) in
+  one_thread 0 w_single_run /\
+  mlog g = w_single_log /\
+  (in_flight g = 0) /\ (activity g = 0) /\ (vreq g = []) /\ (vcb g = []) /\
+  snd (s_run (fun _ => false) w_single_run) 0 = SIdle.
+Proof. exact single_run_example. Qed.
